@@ -10,6 +10,8 @@ fn desc(arg: &str, what: &str) -> String {
 pub struct Outcome { pub scores: Vec<i32>, pub labels: Vec<u8>, pub wb_for_tags: Vec<bool>, pub n_tags: usize, pub tags: Vec<Option<String>>, pub cands: Vec<(usize, Vec<Vec<(String, i64)>>)> }
 
 pub fn run_real(md: &ModelData, text: &str, predict_tags: bool, roundtrip: bool) -> Result<Outcome, String> {
+    // (without vaporetto's tag-prediction feature, asking for tags is a documented panic of Predictor::new)
+    let predict_tags = predict_tags && cfg!(feature = "tagpred");
     let bytes = md.to_bytes();
     let (model, rest) = Model::read_slice(&bytes).map_err(|e| format!("model rejected: {e}"))?;
     if !rest.is_empty() { return Err("read_slice left bytes".into()); }
@@ -27,6 +29,7 @@ pub fn run_real(md: &ModelData, text: &str, predict_tags: bool, roundtrip: bool)
         predictor = p2;
     }
     let mut s = Sentence::from_raw(text.to_string()).map_err(|e| format!("text rejected: {e}"))?;
+    #[cfg(feature = "tagpred")]
     if predict_tags { predictor.store_tag_scores(true); }
     // texts of even length are predicted twice in a row on the same sentence object: the second prediction must
     // overwrite the first ("overwriting any earlier annotation"), not add to it
@@ -35,6 +38,7 @@ pub fn run_real(md: &ModelData, text: &str, predict_tags: bool, roundtrip: bool)
     let labels: Vec<u8> = s.boundaries().iter().map(|b| *b as u8).collect();
     // texts whose length is a multiple of 3: some boundaries are flipped by hand between predict and fill_tags (as a
     // filter would): tags must follow the boundaries the sentence has when fill_tags runs
+    #[cfg(feature = "tagpred")]
     if predict_tags && text.chars().count() % 3 == 0 {
         // (tags are filled once BEFORE the edit as well: the second fill must start from a clean table)
         s.fill_tags();
@@ -46,8 +50,12 @@ pub fn run_real(md: &ModelData, text: &str, predict_tags: bool, roundtrip: bool)
         }
     }
     let wb_for_tags: Vec<bool> = s.boundaries().iter().map(|b| *b == B::WordBoundary).collect();
+    #[cfg(feature = "tagpred")]
     if predict_tags { s.fill_tags(); }
     // candidate scores as reported (score storing on): per token end, per category
+    #[cfg(not(feature = "tagpred"))]
+    let cands = vec![];
+    #[cfg(feature = "tagpred")]
     let cands = if predict_tags {
         s.iter_tokens().map(|t| (t.end(), t.tag_candidates().into_iter().map(|c| c.into_iter().map(|(a, b)| (a.to_string(), b as i64)).collect()).collect())).collect()
     } else { vec![] };
@@ -61,10 +69,8 @@ pub fn run_real(md: &ModelData, text: &str, predict_tags: bool, roundtrip: bool)
     })
 }
 
-/// one case = (seed, with_tags, roundtrip); returns a description of the first disagreement
-pub fn case(seed: u64, with_tags: bool, roundtrip: bool, check_tags: bool) -> Option<String> {
-    let mut r = Rng(seed);
-    let mut md = gen_model(&mut r, with_tags);
+/// degenerate shapes, magnitudes and sparsity, keyed by the seed (shared by the sweep and the C13 dump)
+pub fn shape(md: &mut ModelData, seed: u64) {
     // degenerate shapes (every 5th seed): a model without character n-grams (dictionary only), without type n-grams,
     // without dictionary, or with neither kind of n-gram -- each list may be empty on its own
     match seed % 20 {
@@ -83,11 +89,18 @@ pub fn case(seed: u64, with_tags: bool, roundtrip: bool, check_tags: bool) -> Op
         for d in md.dict_model.0.iter_mut() { f(&mut d.weights); }
     };
     match seed % 6 {
-        4 => { each_vec(&mut md, &|w| for x in w.iter_mut() { *x *= 327; }); md.bias *= 327; }
-        1 => { let keep = 1 + (seed / 6 % 3) as usize; each_vec(&mut md, &|w| if w.len() > 8 { let n = w.len(); for x in w[..n - keep].iter_mut() { *x = 0; } }); }
-        5 => { let keep = 1 + (seed / 6 % 3) as usize; each_vec(&mut md, &|w| if w.len() > 8 { for x in w[keep..].iter_mut() { *x = 0; } }); }
+        4 => { each_vec(md, &|w| for x in w.iter_mut() { *x *= 327; }); md.bias *= 327; }
+        1 => { let keep = 1 + (seed / 6 % 3) as usize; each_vec(md, &|w| if w.len() > 8 { let n = w.len(); for x in w[..n - keep].iter_mut() { *x = 0; } }); }
+        5 => { let keep = 1 + (seed / 6 % 3) as usize; each_vec(md, &|w| if w.len() > 8 { for x in w[keep..].iter_mut() { *x = 0; } }); }
         _ => {}
     }
+}
+
+/// one case = (seed, with_tags, roundtrip); returns a description of the first disagreement
+pub fn case(seed: u64, with_tags: bool, roundtrip: bool, check_tags: bool) -> Option<String> {
+    let mut r = Rng(seed);
+    let mut md = gen_model(&mut r, with_tags);
+    shape(&mut md, seed);
     // every 7th seed the predictor is built with the OTHER tag-prediction flag: tag models present but tagging off
     // (boundaries as usual, no tags at all), or tagging on without any tag model (likewise no tags)
     let predict_tags = if seed % 7 == 3 { !with_tags } else { with_tags };
@@ -112,7 +125,8 @@ pub fn case(seed: u64, with_tags: bool, roundtrip: bool, check_tags: bool) -> Op
                 return Some(format!("boundary {i} of text #{t} {:?}: score {} but label {}", text, want[i], l));
             }
         }
-        if !(predict_tags && with_tags) {
+        // (a build without vaporetto's tag-prediction feature never reports tags)
+        if !(cfg!(feature = "tagpred") && predict_tags && with_tags) {
             if got.n_tags != 0 || !got.tags.is_empty() {
                 return Some(format!("tags on text #{t} {:?} although {}: n_tags {} {:?}", text, if predict_tags { "the model has no tag model" } else { "tag prediction is off" }, got.n_tags, got.tags));
             }
@@ -167,9 +181,10 @@ pub fn dump() {
         let seed = base_seed().wrapping_mul(1_000_003).wrapping_add(i);
         let mut r = Rng(seed);
         let with_tags = i % 2 == 1;
-        let md = gen_model(&mut r, with_tags);
-        for _ in 0..6 {
-            let text = gen_text(&mut r, 12);
+        let mut md = gen_model(&mut r, with_tags);
+        shape(&mut md, seed);
+        for t in 0..7 {
+            let text = if t < 6 { gen_text(&mut r, 12) } else { gen_text_from_model(&mut r, &md, 14) };
             match catch_unwind(AssertUnwindSafe(|| run_real(&md, &text, with_tags, false))) {
                 Ok(Ok(o)) => println!("{seed}\t{:?}\t{:?}\t{:?}\t{}\t{:?}", text, o.scores, o.labels, o.n_tags, o.tags),
                 Ok(Err(e)) => println!("{seed}\t{:?}\tERR {e}", text),
